@@ -49,6 +49,7 @@ var Families = map[string]func(t *testing.T, seed int64, steps int) *Cluster{
 	"leaseadd":    famLeaseAdd,
 	"verifywide":  famVerifyWide,
 	"fastpathterm": famFastPathTerm,
+	"fastpathup":  famFastPathUp,
 	"transferstuck": famTransferStuck, // not in any plan: kept as a scenario, the defect it was written for needs a rarer trigger (see DESIGN 7.16)
 }
 
